@@ -37,6 +37,7 @@ type Engine struct {
 	timeoutMs int
 	verbose   bool
 	findings  []Finding
+	missingContracts []string
 }
 
 const pkgPath = "github.com/jwhited/corebgp"
@@ -168,9 +169,12 @@ func (e *Engine) loadSpecs(externDir string) error {
 	}
 	for name := range e.spec.Contracts {
 		if _, ok := e.funcs[name]; !ok {
-			return fmt.Errorf("contract for unknown function %q (known: see `cbv list`)", name)
+			// the contracted function no longer exists (renamed/removed): every
+			// property whose cone lists it reports a missing anchor
+			e.missingContracts = append(e.missingContracts, name)
 		}
 	}
+	sort.Strings(e.missingContracts)
 	return nil
 }
 
